@@ -42,6 +42,8 @@ pub struct Ctl {
     pub probe_keys: RwLock<Vec<Vec<u8>>>,
     pub point_hits: Mutex<BTreeMap<&'static str, u64>>,
     pub next_id: AtomicU64,
+    /// when non-empty, delays are injected only at points whose name starts with one of these
+    pub delay_prefixes: RwLock<Vec<&'static str>>,
 }
 
 pub struct Gate {
@@ -81,6 +83,7 @@ pub fn ctl() -> Arc<Ctl> {
             probe_keys: RwLock::new(Vec::new()),
             point_hits: Mutex::new(BTreeMap::new()),
             next_id: AtomicU64::new(1_000_000_000),
+            delay_prefixes: RwLock::new(Vec::new()),
         });
         let c2 = c.clone();
         surrealkv::verif::set_point_hook(Some(Arc::new(move |name: &'static str| c2.at_point(name))));
@@ -116,6 +119,7 @@ impl Ctl {
         self.gates.lock().unwrap().clear();
         self.point_hits.lock().unwrap().clear();
         *self.tree.write().unwrap() = None;
+        self.delay_prefixes.write().unwrap().clear();
     }
     pub fn arm_gate(&self, name: &'static str) -> Arc<Gate> {
         let g = Arc::new(Gate { armed: AtomicBool::new(true), parked: Mutex::new(false), released: Mutex::new(false), cv: Condvar::new() });
@@ -155,7 +159,11 @@ impl Ctl {
             }
         }
         let dp = self.delay_pct.load(Ordering::Relaxed);
-        if dp > 0 && self.rnd() % 100 < dp {
+        let wanted = {
+            let pre = self.delay_prefixes.read().unwrap();
+            pre.is_empty() || pre.iter().any(|p| name.starts_with(p))
+        };
+        if dp > 0 && wanted && self.rnd() % 100 < dp {
             let us = self.rnd() % self.max_delay_us.load(Ordering::Relaxed).max(1);
             if us < 5 {
                 std::thread::yield_now();
@@ -273,6 +281,13 @@ pub struct Params {
     pub value_pad: usize,
     pub write_only_pct: u64,
     pub close_midway: bool,
+    /// >0: probers keep their transaction open for up to this many microseconds and read again
+    pub long_probe_us: u64,
+    /// manual background mode: flushes and compaction rounds are issued by two separate tasks
+    /// (as the store's own flush and level tasks are), not by one
+    pub split_maintenance: bool,
+    /// delays only at yield points with these name prefixes (empty = everywhere)
+    pub delay_prefixes: Vec<&'static str>,
 }
 
 impl Default for Params {
@@ -294,6 +309,9 @@ impl Default for Params {
             value_pad: 0,
             write_only_pct: 20,
             close_midway: false,
+            long_probe_us: 0,
+            split_maintenance: false,
+            delay_prefixes: vec![],
         }
     }
 }
@@ -365,6 +383,7 @@ pub fn run_history(cfg: &Cfg, dir: &Path, p: &Params, seed: u64) -> HistoryOut {
     c.max_delay_us.store(p.max_delay_us, Ordering::Relaxed);
     c.probe_pct.store(p.probe_pct, Ordering::Relaxed);
     c.record_points.store(true, Ordering::Relaxed);
+    *c.delay_prefixes.write().unwrap() = p.delay_prefixes.clone();
     surrealkv::verif::set_manual_background(p.manual_background);
     let _ = std::fs::remove_dir_all(dir);
     let rt = tokio::runtime::Builder::new_multi_thread().worker_threads(12).enable_all().build().unwrap();
@@ -571,6 +590,7 @@ pub fn run_history(cfg: &Cfg, dir: &Path, p: &Params, seed: u64) -> HistoryOut {
                 let stop = stop.clone();
                 let pk = pk.clone();
                 let quiesce = quiescec.clone();
+                let long_us = pc.long_probe_us;
                 handles.push(tokio::spawn(async move {
                     let mut n = 0u64;
                     while !stop.load(Ordering::SeqCst) && n < 200_000 {
@@ -580,7 +600,42 @@ pub fn run_history(cfg: &Cfg, dir: &Path, p: &Params, seed: u64) -> HistoryOut {
                         }
                         let id = 2_000_000_000 + (pi as u64) * 10_000_000 + n;
                         n += 1;
-                        if let Some(mut rec) = probe_txn(&tree, id, &pk, None) {
+                        if long_us > 0 && n % 2 == 0 {
+                            // long-lived reader: reads, stays open while others commit / flush /
+                            // compact, reads again (forward scan of the probe keys' range too)
+                            let bi = tick();
+                            if let Ok(tx) = tree.begin_with_mode(Mode::ReadOnly) {
+                                let br = tick();
+                                let mut rec = TxnRec {
+                                    id,
+                                    kind: "long_probe",
+                                    client: 1000 + pi,
+                                    start_seq: tx.verif_start_seq(),
+                                    begin_invoke: bi,
+                                    begin_return: br,
+                                    reads: vec![],
+                                    writes: vec![],
+                                    commit_invoke: 0,
+                                    commit_return: 0,
+                                    outcome: Outcome::ReadOnly,
+                                    at_point: None,
+                                    read_errors: vec![],
+                                };
+                                for round in 0..3 {
+                                    for k in &pk {
+                                        match tx.get(k) {
+                                            Ok(v) => rec.reads.push((k.clone(), v)),
+                                            Err(e) => rec.read_errors.push(format!("get({}) failed: {e}", hex(k))),
+                                        }
+                                    }
+                                    if round < 2 {
+                                        let us = (id.wrapping_mul(0x9E37_79B9) >> 7) % long_us + 50;
+                                        tokio::time::sleep(std::time::Duration::from_micros(us)).await;
+                                    }
+                                }
+                                all.lock().unwrap().push(rec);
+                            }
+                        } else if let Some(mut rec) = probe_txn(&tree, id, &pk, None) {
                             rec.client = 1000 + pi;
                             all.lock().unwrap().push(rec);
                         }
@@ -595,6 +650,7 @@ pub fn run_history(cfg: &Cfg, dir: &Path, p: &Params, seed: u64) -> HistoryOut {
                 let tree = tree.clone();
                 let stop = stop.clone();
                 let manual = pc.manual_background;
+                let split = pc.split_maintenance;
                 let quiesce = quiescec.clone();
                 Some(tokio::task::spawn_blocking(move || {
                     let mut r = Rng::new(seed ^ 0x4d41);
@@ -615,7 +671,9 @@ pub fn run_history(cfg: &Cfg, dir: &Path, p: &Params, seed: u64) -> HistoryOut {
                                 }
                             }
                             2 => {
-                                if manual {
+                                if manual && split {
+                                    let _ = tree.verif_flush_one();
+                                } else if manual {
                                     let _ = tree.verif_compact_once();
                                 } else {
                                     tree.verif_wake_background();
@@ -624,6 +682,19 @@ pub fn run_history(cfg: &Cfg, dir: &Path, p: &Params, seed: u64) -> HistoryOut {
                             _ => {}
                         }
                         std::thread::sleep(std::time::Duration::from_micros(r.range(200, 3000)));
+                    }
+                }))
+            } else {
+                None
+            };
+            let maint2 = if pc.maintenance && pc.split_maintenance && pc.manual_background {
+                let tree = tree.clone();
+                let stop = stop.clone();
+                Some(tokio::task::spawn_blocking(move || {
+                    let mut r = Rng::new(seed ^ 0x4d42);
+                    while !stop.load(Ordering::SeqCst) {
+                        let _ = tree.verif_compact_once();
+                        std::thread::sleep(std::time::Duration::from_micros(r.range(100, 2000)));
                     }
                 }))
             } else {
@@ -650,6 +721,9 @@ pub fn run_history(cfg: &Cfg, dir: &Path, p: &Params, seed: u64) -> HistoryOut {
             }
             stop.store(true, Ordering::SeqCst);
             if let Some(m) = maint {
+                let _ = m.await;
+            }
+            if let Some(m) = maint2 {
                 let _ = m.await;
             }
             // final state + commit order at the public boundary
